@@ -745,6 +745,40 @@ func main() {
 			}
 		}
 	}
+	if r.ReplayPath != "" {
+		var rep struct {
+			State    string   `json:"state"`
+			Messages []string `json:"messages"`
+		}
+		r.LoadReplay(&rep)
+		var st *state
+		for i := range sts {
+			if sts[i].name == rep.State {
+				st = &sts[i]
+			}
+		}
+		var hs []hostile
+		for _, n := range rep.Messages {
+			for _, h := range append(append([]hostile{}, typed...), raw...) {
+				if h.name == n {
+					hs = append(hs, h)
+					break
+				}
+			}
+		}
+		if st == nil || len(hs) != len(rep.Messages) {
+			vk.Fatalf("replay: unknown state or message in %+v", rep)
+		}
+		// NOTE: a case that kills the process does so here too (run the replay under ulimit -v)
+		for i := 0; i < 5; i++ {
+			o := runCase(f, *st, hs)
+			fmt.Printf("replay run %d: queued=%d changed=%v reactorPanic=%q\n", i, o.queued, o.changed, o.recvPanic)
+			if o.viol[0] != "" {
+				r.Violation(o.viol[0], o.viol[1], rep)
+			}
+		}
+		r.Finish()
+	}
 	caseNames = func(i int) []string {
 		out := []string{"state=" + jobs[i].st.name}
 		for _, h := range jobs[i].hs {
